@@ -25,7 +25,9 @@ pub fn guarded<F: FnOnce() -> Value>(f: F) -> Value {
     }
 }
 
-fn ss_value(m: &HashMap<i32, ShortestPathInfo<i32>>) -> Value {
+/// `scale`: factor from the library's distances to the specification's integer weight units
+/// (the case's weight divisor in weighted mode, 1 in hop-count mode).
+fn ss_value(m: &HashMap<i32, ShortestPathInfo<i32>>, scale: f64) -> Value {
     let mut keys: Vec<&i32> = m.keys().collect();
     keys.sort();
     Value::Array(
@@ -34,7 +36,7 @@ fn ss_value(m: &HashMap<i32, ShortestPathInfo<i32>>) -> Value {
                 let spi = &m[t];
                 let mut paths = spi.paths.clone();
                 paths.sort();
-                json!([t, rat(spi.distance), paths])
+                json!([t, rat(spi.distance * scale), paths])
             })
             .collect(),
     )
@@ -69,29 +71,29 @@ fn adjacency(_g: &G) -> Value {
     json!([])
 }
 
-fn ss_ans(r: Result<HashMap<i32, ShortestPathInfo<i32>>, Error>) -> Value {
+fn ss_ans(r: Result<HashMap<i32, ShortestPathInfo<i32>>, Error>, scale: f64) -> Value {
     match r {
-        Ok(m) => json!({"e": "", "v": ss_value(&m)}),
+        Ok(m) => json!({"e": "", "v": ss_value(&m, scale)}),
         Err(e) => err_ans(&e),
     }
 }
 
-fn ap_ans(r: Result<HashMap<i32, HashMap<i32, ShortestPathInfo<i32>>>, Error>) -> Value {
+fn ap_ans(r: Result<HashMap<i32, HashMap<i32, ShortestPathInfo<i32>>>, Error>, scale: f64) -> Value {
     match r {
         Ok(m) => {
             let mut keys: Vec<&i32> = m.keys().collect();
             keys.sort();
-            json!({"e": "", "v": keys.into_iter().map(|s| json!([s, ss_value(&m[s])])).collect::<Vec<_>>()})
+            json!({"e": "", "v": keys.into_iter().map(|s| json!([s, ss_value(&m[s], scale)])).collect::<Vec<_>>()})
         }
         Err(e) => err_ans(&e),
     }
 }
 
-fn cutoff_f(c2: i64) -> Option<f64> {
+fn cutoff_f(c2: i64, scale: f64) -> Option<f64> {
     if c2 < 0 {
         None
     } else {
-        Some(c2 as f64 / 2.0)
+        Some(c2 as f64 / 2.0 / scale)
     }
 }
 fn target_o(t: i32) -> Option<i32> {
@@ -102,12 +104,12 @@ fn target_o(t: i32) -> Option<i32> {
     }
 }
 
-fn f64_map_ans(r: Result<HashMap<i32, f64>, Error>) -> Value {
+fn f64_map_ans(r: Result<HashMap<i32, f64>, Error>, factor: f64) -> Value {
     match r {
         Ok(m) => {
             let mut v: Vec<(i32, f64)> = m.into_iter().collect();
             v.sort_by_key(|x| x.0);
-            json!({"e": "", "v": v.into_iter().map(|(k, x)| json!([k, rat(x)])).collect::<Vec<_>>()})
+            json!({"e": "", "v": v.into_iter().map(|(k, x)| json!([k, rat(x * factor)])).collect::<Vec<_>>()})
         }
         Err(e) => err_ans(&e),
     }
@@ -151,17 +153,19 @@ pub fn suite_paths(g: &G, grid: u8) -> Value {
     let mut ap = vec![];
     let mut ms = vec![];
     let mut inv = vec![];
+    let div = wdiv() as f64;
     for weighted in modes(g) {
+        let scale = if weighted { div } else { 1.0 };
         for &s in &names {
             let mut calls = vec![];
             let mut call = |t: i32, c2: i64, fo: bool, wp: bool| {
                 let mut raw = json!([]);
                 let ans = guarded(|| {
-                    let r = dijkstra::single_source(g, weighted, s, target_o(t), cutoff_f(c2), fo, wp);
+                    let r = dijkstra::single_source(g, weighted, s, target_o(t), cutoff_f(c2, scale), fo, wp);
                     if wp && names.len() <= 8 {
                         raw = ss_raw(&r);
                     }
-                    ss_ans(r)
+                    ss_ans(r, scale)
                 });
                 calls.push(json!({"target": t, "cutoff": c2, "first_only": fo, "with_paths": wp, "ans": ans, "raw": raw,
                                   "has_raw": wp && names.len() <= 8}));
@@ -172,7 +176,7 @@ pub fn suite_paths(g: &G, grid: u8) -> Value {
             if grid >= 1 {
                 // distances for the cutoff grid come from the library's own unrestricted answer
                 let dists: Vec<f64> = dijkstra::single_source(g, weighted, s, None, None, false, false)
-                    .map(|m| m.values().map(|x| x.distance).collect())
+                    .map(|m| m.values().map(|x| x.distance * scale).collect())
                     .unwrap_or_default();
                 let cs = cutoffs2(&dists);
                 let mut targets = vec![0];
@@ -218,18 +222,18 @@ pub fn suite_paths(g: &G, grid: u8) -> Value {
         let pool2 = if names.len() > 20 { rayon::ThreadPoolBuilder::new().num_threads(2).build().ok() } else { None };
         for (t, c2, fo, wp) in variants {
             if let Some(pool) = &pool2 {
-                let a = pool.install(|| guarded(|| ap_ans(dijkstra::all_pairs(g, weighted, target_o(t), cutoff_f(c2), fo, wp))));
+                let a = pool.install(|| guarded(|| ap_ans(dijkstra::all_pairs(g, weighted, target_o(t), cutoff_f(c2, scale), fo, wp), scale)));
                 ap.push(json!({"weighted": weighted, "target": t, "cutoff": c2, "first_only": fo, "with_paths": wp, "ans": a, "pool": 2}));
             }
-            let a = guarded(|| ap_ans(dijkstra::all_pairs(g, weighted, target_o(t), cutoff_f(c2), fo, wp)));
+            let a = guarded(|| ap_ans(dijkstra::all_pairs(g, weighted, target_o(t), cutoff_f(c2, scale), fo, wp), scale));
             ap.push(json!({"weighted": weighted, "target": t, "cutoff": c2, "first_only": fo, "with_paths": wp, "ans": a}));
-            let a = guarded(|| ap_ans(dijkstra::multi_source(g, weighted, names.clone(), target_o(t), cutoff_f(c2), fo, wp)));
+            let a = guarded(|| ap_ans(dijkstra::multi_source(g, weighted, names.clone(), target_o(t), cutoff_f(c2, scale), fo, wp), scale));
             ms.push(json!({"weighted": weighted, "sources": names, "target": t, "cutoff": c2, "first_only": fo, "with_paths": wp, "ans": a}));
         }
         // multi_source over proper subsets (first node, last two nodes)
         if names.len() >= 2 {
             for srcs in [vec![names[0]], names[names.len() - 2..].to_vec()] {
-                let a = guarded(|| ap_ans(dijkstra::multi_source(g, weighted, srcs.clone(), None, None, false, true)));
+                let a = guarded(|| ap_ans(dijkstra::multi_source(g, weighted, srcs.clone(), None, None, false, true), scale));
                 ms.push(json!({"weighted": weighted, "sources": srcs, "target": 0, "cutoff": -1, "first_only": false, "with_paths": true, "ans": a}));
             }
         }
@@ -259,16 +263,19 @@ pub fn suite_centrality(g: &G) -> Value {
     // above the parallel threshold also inside a pool of two threads (each worker then handles
     // many sources in a row, which is what reused per-worker state needs to show)
     let pool2 = if g.number_of_nodes() > 20 { rayon::ThreadPoolBuilder::new().num_threads(2).build().ok() } else { None };
+    let div = wdiv() as f64;
     for weighted in modes(g) {
+        // closeness is (r-1) / (sum of distances): real distances are the integer ones divided by div
+        let cfac = if weighted { 1.0 / div } else { 1.0 };
         for flag in [false, true] {
-            let a = guarded(|| f64_map_ans(betweenness::betweenness_centrality(g, weighted, flag)));
+            let a = guarded(|| f64_map_ans(betweenness::betweenness_centrality(g, weighted, flag), 1.0));
             bc.push(json!({"weighted": weighted, "normalized": flag, "ans": a}));
-            let a = guarded(|| f64_map_ans(closeness::closeness_centrality(g, weighted, flag)));
+            let a = guarded(|| f64_map_ans(closeness::closeness_centrality(g, weighted, flag), cfac));
             cc.push(json!({"weighted": weighted, "wf": flag, "ans": a}));
             if let Some(pool) = &pool2 {
-                let a = pool.install(|| guarded(|| f64_map_ans(betweenness::betweenness_centrality(g, weighted, flag))));
+                let a = pool.install(|| guarded(|| f64_map_ans(betweenness::betweenness_centrality(g, weighted, flag), 1.0)));
                 bc.push(json!({"weighted": weighted, "normalized": flag, "ans": a, "pool": 2}));
-                let a = pool.install(|| guarded(|| f64_map_ans(closeness::closeness_centrality(g, weighted, flag))));
+                let a = pool.install(|| guarded(|| f64_map_ans(closeness::closeness_centrality(g, weighted, flag), cfac)));
                 cc.push(json!({"weighted": weighted, "wf": flag, "ans": a, "pool": 2}));
             }
         }
@@ -284,14 +291,15 @@ pub fn suite_weighted(g: &G) -> Value {
     let mut ss = vec![];
     let mut bc = vec![];
     let mut cc = vec![];
+    let div = wdiv() as f64;
     if g.edges_have_weight() && !g.get_all_edges().is_empty() {
         for &s in &names {
-            let ans = guarded(|| ss_ans(dijkstra::single_source(g, true, s, None, None, false, true)));
+            let ans = guarded(|| ss_ans(dijkstra::single_source(g, true, s, None, None, false, true), div));
             ss.push(json!({"s": s, "weighted": true, "calls": [{"target": 0, "cutoff": -1, "first_only": false, "with_paths": true, "ans": ans}]}));
         }
-        let a = guarded(|| f64_map_ans(betweenness::betweenness_centrality(g, true, false)));
+        let a = guarded(|| f64_map_ans(betweenness::betweenness_centrality(g, true, false), 1.0));
         bc.push(json!({"weighted": true, "normalized": false, "ans": a}));
-        let a = guarded(|| f64_map_ans(closeness::closeness_centrality(g, true, false)));
+        let a = guarded(|| f64_map_ans(closeness::closeness_centrality(g, true, false), 1.0 / div));
         cc.push(json!({"weighted": true, "wf": false, "ans": a}));
     }
     json!({"ss": ss, "ap": [], "ms": [], "inv": [], "bc": bc, "cc": cc})
@@ -301,7 +309,13 @@ pub fn suite_weighted(g: &G) -> Value {
 pub fn observe<W: Write>(em: &mut Emitter<W>, suite: &str, grid: u8, case: &Value, pool: &mut crate::watchdog::Pool) {
     let specs = SpecsJ::from_json(&case["specs"]);
     let ops: Vec<Op> = case["ops"].as_array().unwrap().iter().map(Op::from_json).collect();
-    let built = catch_unwind(AssertUnwindSafe(|| build(specs, &ops)));
+    set_wdiv(case["wdiv"].as_i64().unwrap_or(1));
+    observe_case(em, suite, grid, case, pool, specs, &ops);
+    set_wdiv(1);
+}
+
+fn observe_case<W: Write>(em: &mut Emitter<W>, suite: &str, grid: u8, case: &Value, pool: &mut crate::watchdog::Pool, specs: SpecsJ, ops: &[Op]) {
+    let built = catch_unwind(AssertUnwindSafe(|| build(specs, ops)));
     let g = match built {
         Ok(g) => g,
         Err(p) => {
@@ -324,7 +338,9 @@ pub fn observe<W: Write>(em: &mut Emitter<W>, suite: &str, grid: u8, case: &Valu
             let mut outs: std::collections::BTreeSet<String> = Default::default();
             for c in crate::api::louvain_api_calls() {
                 let r = pool.call(&json!({"case": case, "call": {"kind": "louvain", "args": c}}), std::time::Duration::from_secs(10));
-                outs.insert(crate::api::res_string_of_louvain(&r));
+                if r["e"] != "NotRun" {
+                    outs.insert(crate::api::res_string_of_louvain(&r));
+                }
             }
             a["calls"].as_array_mut().unwrap().push(json!({"f": "louvain_partitions", "shape": "none", "outs": outs.iter().collect::<Vec<_>>(), "panic": ""}));
             a
